@@ -7,6 +7,7 @@ other `if`s are descended into on both sides):
 
   reassignValues   the list in `if reassign not in [...]: raise`
   discard<Mode>    the class tuple `X` of the element filter `p_ind == 0 or not isinstance(e, X)` in force in that mode
+                   (the element loop is the `for` whose body is that filtered block, however its iterable is written)
   voiceGuard<Mode> the classes whose instances get `e.voice = ...` in the element loop ([] = voices untouched)
   staffGuard<Mode> the classes whose instances get `e.staff = ...` in the element loop ([] = staves untouched)
   voiceSource      the class whose instances define `unique_voices` (iter_all(<cls>, include_subclasses=True))
@@ -98,11 +99,9 @@ class Interp:
                 else:
                     self.env.pop(name, None)
             elif isinstance(s, ast.For):
-                # the element loop iterates over `p.iter_all()` (possibly followed by further elements of the part)
-                whole = [n for n in ast.walk(s.iter)
-                         if isinstance(n, ast.Call) and isinstance(n.func, ast.Attribute) and n.func.attr == "iter_all"
-                         and not n.args and not n.keywords]
-                if whole and isinstance(s.target, ast.Name):
+                # the element loop: `for e in <the elements of p>:` whose body is the filtered block
+                # `if <index> == 0 or not isinstance(e, X): ...` (however the iterable is written)
+                if isinstance(s.target, ast.Name) and self._filter(s) is not None:
                     if self.loop is not None:
                         raise Unexpected("two element loops")
                     self.loop = s
@@ -112,31 +111,37 @@ class Interp:
                 raise Unexpected("unexpected statement %s" % type(s).__name__)
 
     # ---- the element loop
-    def element_loop(self):
-        if self.loop is None:
-            raise Unexpected("no `for e in p.iter_all()` loop")
-        evar = self.loop.target.id
-        body = [s for s in self.loop.body if not (isinstance(s, ast.Expr) and isinstance(s.value, ast.Constant))]
+    @staticmethod
+    def _filter(loop):
+        """(block, X) when the body of `loop` is `if <index> == 0 or not isinstance(<target>, X): block`"""
+        evar = loop.target.id
+        body = [s for s in loop.body if not (isinstance(s, ast.Expr) and isinstance(s.value, ast.Constant))]
         if len(body) != 1 or not isinstance(body[0], ast.If) or body[0].orelse:
-            raise Unexpected("the element loop is not a single filtered block")
+            return None
         test = body[0].test
-        # p_ind == 0 or not isinstance(e, X)
         if not (isinstance(test, ast.BoolOp) and isinstance(test.op, ast.Or) and len(test.values) == 2):
-            raise Unexpected("element filter is not `first or not isinstance`")
+            return None
         a, b = test.values
         if not (isinstance(a, ast.Compare) and len(a.ops) == 1 and isinstance(a.ops[0], ast.Eq)
                 and isinstance(a.comparators[0], ast.Constant) and a.comparators[0].value == 0
                 and isinstance(a.left, ast.Name)):
-            raise Unexpected("element filter: first operand is not `<index> == 0`")
+            return None
         if not (isinstance(b, ast.UnaryOp) and isinstance(b.op, ast.Not)):
-            raise Unexpected("element filter: second operand is not `not isinstance(...)`")
+            return None
         x = _isinstance_of_e(b.operand, evar)
         if x is None:
-            raise Unexpected("element filter: second operand is not `not isinstance(e, X)`")
+            return None
+        return body[0].body, x
+
+    def element_loop(self):
+        if self.loop is None:
+            raise Unexpected("no element loop `for e in ...: if <index> == 0 or not isinstance(e, X): ...`")
+        evar = self.loop.target.id
+        block, x = self._filter(self.loop)
         discard = _names_of(x, self.env)
         guards = {"voice": [], "staff": []}
         mapping = {}
-        self._assignments(body[0].body, evar, None, guards, mapping)
+        self._assignments(block, evar, None, guards, mapping)
         return discard, guards, mapping
 
     def _assignments(self, stmts, evar, guard, guards, mapping):
